@@ -1181,3 +1181,5 @@ func (in *Interp) appendOp(s Slice, add Value, call *ssa.CallCommon) Value {
 	}
 	return Slice{arr: na, off: 0, len: tt.BV(64, uint64(need)), cap: tt.BV(64, uint64(nc))}
 }
+
+func mathMod(x, y float64) float64 { return math.Mod(x, y) }
